@@ -7,7 +7,13 @@ package main
 // the lemma talks about, written in a contract file of that package or in a trusted .spec file under `package <pkg>` -- are
 // assumed in a lemma tagged with that property, exactly as they are in the functions of that property, and listed among the
 // lemma's assumptions. Unscoped axioms never enter lemmas (as before), so lemmas of other properties are unchanged.
+// noLemmaAxioms: lemma contexts whose `requires` called the spec builtin noaxioms().
+var noLemmaAxioms = map[*FnCtx]bool{}
+
 func (eng *Engine) assumeLemmaAxioms(fc *FnCtx, st *State, l *Lemma) error {
+	if noLemmaAxioms[fc] { // the lemma said `requires noaxioms()`
+		return nil
+	}
 	lp := eng.pkgOfSpec(&FuncSpec{Pkg: l.Pkg})
 	for _, ax := range eng.contracts.Axioms {
 		if ax.Pkg == "" || len(ax.Props) == 0 || !axiomInScope(ax, l.Props) {
